@@ -737,8 +737,16 @@ func c06RefreshVsExpiry() *sched.Scenario {
 // instant the entry's timer fires (timeout 1 s, refresh sent 1 ns before). Whatever the order of the timer
 // goroutine and the request: once the refresh is answered with success, the entry authorises relaying for
 // one full timeout from then on - data sent half a timeout later reaches the peer.
-func c07RefreshVsExpiry(kind string) *sched.Scenario {
-	return &sched.Scenario{Name: "c07-" + kind + "-refresh-at-the-expiry-instant", Bound: bound(), FreeBound: 3, Opt: opt,
+func c07RefreshVsExpiry(kind string) *sched.Scenario { return c07RefreshVsExpiryDir(kind, false) }
+
+// c07RefreshVsExpiryDir: p2c = the probes are datagrams of the peer (C02's direction) instead of the client's.
+func c07RefreshVsExpiryDir(kind string, p2c bool) *sched.Scenario {
+	name := "c07-" + kind + "-refresh-at-the-expiry-instant"
+	if p2c {
+		name = "c02-" + kind + "-refresh-at-the-expiry-instant-peer-datagrams"
+	}
+
+	return &sched.Scenario{Name: name, Bound: bound(), FreeBound: 3, Opt: opt,
 		Body: func(*vsched.Sched) (func() []string, func()) {
 			cfg := sched.BCfg{Perm: time.Second, CB: func(string) { vsched.Point("callback", "cb") }}
 			if kind == "chan" {
@@ -757,7 +765,8 @@ func c07RefreshVsExpiry(kind string) *sched.Scenario {
 				return c.Do(wire.CreatePermission, peer("A"))
 			}
 			vsched.Go("client", func() {
-				c.Do(wire.Allocate, udp)
+				ar := c.Do(wire.Allocate, udp)
+				relay, _ := ar.XorAddr(wire.AttrXORRelayedAddress)
 				req()
 				vsched.IdleSleep(time.Second - time.Nanosecond)
 				vsched.Mark()
@@ -765,19 +774,39 @@ func c07RefreshVsExpiry(kind string) *sched.Scenario {
 				nt.set("refresh", fmt.Sprintf("%d/%d", r.Class, r.ErrorCode()))
 				vsched.IdleSleep(500 * time.Millisecond)
 				pa.Drain()
-				if kind == "chan" {
-					c.Send(wire.ChannelData(0x4000, []byte("half-a-timeout-after-the-refresh"), false))
-				} else {
-					c.Send(wire.New(wire.Send, wire.Indication, c.NextTx()).XorAddr(wire.AttrXORPeerAddress, a.IP, a.Port).Str(wire.AttrData, "half-a-timeout-after-the-refresh").Bytes())
+				c.Sock.Drain()
+				pending := pa.Pending
+				if p2c {
+					pending = c.Sock.Pending
 				}
+				send := func(text string) {
+					if p2c {
+						_, _ = pa.WriteTo([]byte(text), relay)
+					} else if kind == "chan" {
+						c.Send(wire.ChannelData(0x4000, []byte(text), false))
+					} else {
+						c.Send(wire.New(wire.Send, wire.Indication, c.NextTx()).XorAddr(wire.AttrXORPeerAddress, a.IP, a.Port).Str(wire.AttrData, text).Bytes())
+					}
+				}
+				send("half-a-timeout-after-the-refresh")
 				vsched.IdleSleep(100 * time.Millisecond)
-				nt.set("delivered", fmt.Sprint(pa.Pending()))
+				nt.set("delivered", fmt.Sprint(pending()))
+				// ... and for no longer than one timeout after the later of the two requests: 1.6 s after the
+				// refresh (2.6 s after the first request) the entry is gone whichever of the two counted
+				vsched.IdleSleep(time.Second)
+				pa.Drain()
+				c.Sock.Drain()
+				send("long-after-every-deadline")
+				vsched.IdleSleep(100 * time.Millisecond)
+				nt.set("late", fmt.Sprint(pending()))
 			})
 
 			return func() []string {
 				switch {
-				case nt.get("delivered") == "":
+				case nt.get("late") == "":
 					return []string{"c07:client-never-completed"}
+				case nt.get("late") != "0":
+					return []string{"c07:entry-refreshed-at-the-expiry-instant-never-expires:" + kind}
 				case nt.get("refresh") != fmt.Sprintf("%d/0", wire.Success):
 					return nil // a refused refresh promises nothing (either order is legitimate for the request itself)
 				case nt.get("delivered") != "1":
@@ -856,7 +885,9 @@ func run(t *testing.T, prop string, scs ...*sched.Scenario) {
 	}
 }
 
-func TestC02Sched(t *testing.T) { run(t, "C02", c02ExpiryRace()) }
+func TestC02Sched(t *testing.T) {
+	run(t, "C02", c02ExpiryRace(), c07RefreshVsExpiryDir("perm", true))
+}
 func TestC19Sched(t *testing.T) { run(t, "C19", c19RetransmitDuringSlowAllocate()) }
 func TestC07Sched(t *testing.T) { run(t, "C07", c07RefreshVsExpiry("perm"), c07RefreshVsExpiry("chan")) }
 func TestC06Sched(t *testing.T) { run(t, "C06", c06Realloc(), c06ReallocVsTimer(), c06Reconnect(), c06RefreshVsExpiry()) }
